@@ -75,6 +75,28 @@ CLAIMED.update({
            'zero-length array, broadcast_tooffsets with non-monotone offsets.', 'DESIGN.md section 3 (C12)'),
 })
 
+CLAIMED.update({
+ 'C06': mc('Bounded model checking of awkward_sort / awkward_argsort (with the libstdc++ std::sort / std::stable_sort instantiations from the same IR '
+           'module) and awkward_quick_sort: per segment the output is a permutation of the input segment, ordered by the stated comparator with NaN '
+           'first, argsort positions are segment-local and realise the order, stable sorts keep equal keys in input order; segment lengths case-split.',
+           'Bounds: <= 2 segments of <= 3 (ints) / 2 (floats, quick; 3 thorough) elements. Outside: option re-insertion and axis plumbing in the C++ '
+           'sort_next methods, string sorting kernels. Known finding: the unstable float sort (quick_sort) does not put NaN first.', 'DESIGN.md section 3 (C06)'),
+ 'C14': mc('Narrow claim (GrowableBuffer only): one inductive step of append / set_length / clear of GrowableBuffer<int64_t>, executed symbolically from '
+           'the method IR from an arbitrary state satisfying the representation invariant: writes stay inside the buffer they target, cells [0, old '
+           'length) of the old buffer (shared with snapshots) are never written, the prefix is preserved across reallocation, the invariant is re-established.',
+           'The builder tree, from_iter and LayoutBuilder (value reproduction) are outside. kernel::malloc stubbed (fresh exact-size buffer), resize in [1.5, 16] '
+           '(thorough adds (1, 1.5]).', 'DESIGN.md section 3 (C14)', 'SMT bounded model checking of C++ method LLVM IR (llbmc M-harness, z3 FP); native ASan replay'),
+ 'C18': mc('Narrow claim (partition position arithmetic only): IrregularlyPartitionedArray::partitionid_index_at from its IR for every non-decreasing stops '
+           'vector of <= 4 (thorough 6) partitions, empty ones included, and every 64-bit position: first containing partition, local index = position - start.',
+           'VirtualArray, caches, generators, repartition and partition.py are not addressed.', 'DESIGN.md section 3 (C18)',
+           'SMT bounded model checking of C++ method LLVM IR (llbmc M-harness); native replay'),
+ 'C19': mc('Interpreter core: one instruction of ForthMachineOf<T,int32>::internal_run (T = int32, int64) from an arbitrary well-formed machine state for 34 '
+           'stack/arithmetic/comparison/bitwise words against the documented semantics (floored / mod, wrap-around, documented errors), and '
+           'ForthInputBuffer::read/seek/skip for every 64-bit argument; counterexamples are replayed through the real compiler and interpreter.',
+           'Tokenizer/compiler/decompiler, control words, typed reads/writes, output buffers and pause/resume are outside. Struct layout from the IR type table.',
+           'DESIGN.md section 3 (C19)', 'SMT bounded model checking of C++ method LLVM IR (llbmc M-harness); native replay through the real interpreter'),
+})
+
 NOT_APPLICABLE = {
  'C10': 'record field plumbing lives in std::string/std::vector<shared_ptr> code of RecordArray.cpp and in Python glue over _ext, which cannot be built (pybind11 headers absent); no integer kernel carries the property',
  'C15': 'io/json.cpp is a rapidjson SAX client; rapidjson headers are absent so the file cannot be compiled or lowered to IR',
@@ -82,7 +104,7 @@ NOT_APPLICABLE = {
  'C17': 'Form/Type JSON and parameters need rapidjson; type strings are std::string building; the datashape parser is a Lark table over regex lexing that builds _ext objects',
  'C20': 'Numba lowering needs _ext arrays to type against and only emits IR inside a Numba compile (Numba API mismatch, _ext absent)',
 }
-PENDING = ['C06', 'C14', 'C18', 'C19']
+PENDING = []
 
 checks = []
 for pid, c in sorted(CLAIMED.items()):
